@@ -77,8 +77,7 @@ fn gen_tables(r: &mut Rng, o: &Opts, no_date_x: bool) -> (Catalog, String) {
 fn gen_form(r: &mut Rng, o: &Opts) -> Form {
     let kinds: Vec<&str> = o.get("kinds").unwrap_or("in,in,in,exists,exists,scalar_agg,scalar_agg,scalar_row").split(',').collect();
     let kind = match *r.pick(&kinds) { "in" => "in", "exists" => "exists", "scalar_agg" => "scalar_agg", _ => "scalar_row" };
-    // non-equality correlation (`w1 <op> t0.v0`): on by default for IN and EXISTS; a scalar aggregate only with `noneq_scalar=1`
-    // (the rule then groups by the non-equality column and duplicates outer rows — not mirrored by the model)
+    // non-equality correlation (`w1 <op> t0.v0`): on by default (`noneq=0`, `noneq_scalar=0`, `noneq_exists=0` switch the strata off)
     let allow_noneq = o.get_usize("noneq", 1) == 1;
     let allow_unq = o.get_usize("unq", 1) == 1;
     let places: Vec<&str> = o.get("places").unwrap_or("where,where,where,and,or,select").split(',').collect();
@@ -87,7 +86,8 @@ fn gen_form(r: &mut Rng, o: &Opts) -> Form {
                        cmp: BinOp::Eq, zero_lhs: false, row_pick: "const", unq: allow_unq && r.chance(1, 3), narrow: r.chance(1, 4) };
     let corr = r.below(10);
     match kind {
-        "in" => { f.corr_eq = corr < 4; f.local = *r.pick(&["none", "none", "w_gt", "y_notnull", "y_null", "empty"]); }
+        // a correlated IN that is not decorrelated always fails (C23-F11): keep its share small
+        "in" => { f.corr_eq = corr < 2; f.local = *r.pick(&["none", "none", "w_gt", "y_notnull", "y_null", "empty"]); }
         "exists" => { f.corr_eq = corr < 7; f.local = *r.pick(&["none", "none", "w_gt", "y_notnull", "empty"]); }
         "scalar_agg" => {
             f.neg = false; f.corr_eq = corr < 6;
@@ -98,7 +98,7 @@ fn gen_form(r: &mut Rng, o: &Opts) -> Form {
         }
         _ => { f.neg = false; f.row_pick = *r.pick(&["const", "const", "all", "corr_id", "corr_k"]); f.corr_eq = false; }
     }
-    if allow_noneq && (kind == "in" || kind == "exists" || (kind == "scalar_agg" && o.get_usize("noneq_scalar", 0) == 1)) && r.chance(1, 4) {
+    if allow_noneq && (kind == "in" || kind == "exists" || (kind == "scalar_agg" && o.get_usize("noneq_scalar", 1) == 1)) && r.chance(1, 4) {
         f.corr_noneq = Some(*r.pick(&[BinOp::Lt, BinOp::Gt, BinOp::Le, BinOp::Ge, BinOp::Ne]));
         if r.chance(1, 3) { f.corr_eq = false; }
     }
@@ -191,7 +191,7 @@ fn cases_of(cat: &Catalog, f: &Form, q: &QueryExpr, base_cfg: &str, desc: &str, 
     let mut out = vec![];
     for rules in ["default", "nodecorr"] {
         // EXISTS with an equality AND a non-equality correlation, production rules: the rule hands the non-equality to the
-        // Semi/Anti hash join as a filter, and that operator's filtered probe is C22's finding — not run unless asked for
+        // Semi/Anti hash join as a filter (that operator's filtered probe was C22's finding, repaired by /repo fe1666e)
         if rules == "default" && f.kind == "exists" && f.corr_eq && f.corr_noneq.is_some() && (f.place == "where" || f.place == "and") && !noneq_exists { continue; }
         let name = if rules == "default" { base_cfg.to_string() } else { format!("{}{}", base_cfg, NODECORR) };
         let cfg = match ExecCfg::parse(&name) { Some(c) => c, None => continue };
@@ -243,6 +243,9 @@ fn witness_cases() -> Vec<(Value, Value)> {
     push("C23-F2", "default", "mem1", t(), u(), Form { neg: true, place: "select", ..base.clone() });
     // F3  A.26: correlated scalar subquery in the SELECT list, outer column written unqualified and not otherwise selected
     push("C23-F3", "default", "mem1", t(), u(), Form { kind: "scalar_agg", agg: AggFn::Max, corr_eq: true, place: "select", unq: true, narrow: true, ..base.clone() });
+    // F4  EXISTS with an equality and a non-equality correlation: the join filter used to test the mirrored operator (7 > 5 holds)
+    push("C23-F4", "default", "mem1", table(0, ColTy::I64, vec![vec![i(0), i(1), i(1), i(5)]], vec![1]), table(1, ColTy::I64, vec![vec![i(0), i(1), i(1), i(7)]], vec![1]),
+         Form { kind: "exists", corr_eq: true, corr_noneq: Some(BinOp::Gt), ..base.clone() });
     // F5  IN with a non-equality correlation only: the predicate is removed from the subquery and lost
     push("C23-F5", "default", "mem1", table(0, ColTy::I64, vec![vec![i(0), i(1), i(1), i(5)]], vec![1]), table(1, ColTy::I64, vec![vec![i(0), i(1), i(1), i(7)]], vec![1]),
          Form { corr_noneq: Some(BinOp::Lt), ..base.clone() });
@@ -309,7 +312,7 @@ pub fn main(o: &Opts) {
         // ("number of columns must match number of fields") that is not a subquery defect
         if base.starts_with("pq") && f.kind.starts_with("scalar") { base = "memb".into(); }
         let base = &base;
-        for (case, imp) in cases_of(&cat, &f, &q, base, &desc, &[], o.get_usize("noneq_exists", 0) == 1) {
+        for (case, imp) in cases_of(&cat, &f, &q, base, &desc, &[], o.get_usize("noneq_exists", 1) == 1) {
             if n < o.cases { emit(case, imp); n += 1; }
         }
     }
